@@ -466,6 +466,16 @@ func checkIntRange(v, min, max int64, typ string) error {
 	return nil
 }
 
+// checkIntegral returns a type error if the script float f has a fractional
+// part (or is not finite) and therefore is not a value of the Go integer type
+// named typ.
+func checkIntegral(f float64, typ string) error {
+	if f != math.Trunc(f) || math.IsInf(f, 0) {
+		return errz.TypeErrorf("type error: float value %v is not a valid %s", f, typ)
+	}
+	return nil
+}
+
 // BoolConverter converts between bool and *Bool.
 type BoolConverter struct{}
 
@@ -494,6 +504,9 @@ func (c *ByteConverter) To(obj Object) (interface{}, error) {
 		}
 		return byte(obj.value), nil
 	case *Float:
+		if err := checkIntegral(obj.value, "byte"); err != nil {
+			return nil, err
+		}
 		return byte(obj.value), nil
 	default:
 		return nil, errz.TypeErrorf("type error: expected byte (%s given)", obj.Type())
@@ -536,6 +549,9 @@ func (c *IntConverter) To(obj Object) (interface{}, error) {
 	case *Int:
 		return int(obj.value), nil
 	case *Float:
+		if err := checkIntegral(obj.value, "int"); err != nil {
+			return nil, err
+		}
 		return int(obj.value), nil
 	default:
 		return nil, errz.TypeErrorf("type error: expected int (%s given)", obj.Type())
@@ -559,6 +575,9 @@ func (c *Int8Converter) To(obj Object) (interface{}, error) {
 		}
 		return int8(obj.value), nil
 	case *Float:
+		if err := checkIntegral(obj.value, "int8"); err != nil {
+			return nil, err
+		}
 		return int8(obj.value), nil
 	default:
 		return nil, errz.TypeErrorf("type error: expected int (%s given)", obj.Type())
@@ -582,6 +601,9 @@ func (c *Int16Converter) To(obj Object) (interface{}, error) {
 		}
 		return int16(obj.value), nil
 	case *Float:
+		if err := checkIntegral(obj.value, "int16"); err != nil {
+			return nil, err
+		}
 		return int16(obj.value), nil
 	default:
 		return nil, errz.TypeErrorf("type error: expected int (%s given)", obj.Type())
@@ -605,6 +627,9 @@ func (c *Int32Converter) To(obj Object) (interface{}, error) {
 		}
 		return int32(obj.value), nil
 	case *Float:
+		if err := checkIntegral(obj.value, "int32"); err != nil {
+			return nil, err
+		}
 		return int32(obj.value), nil
 	default:
 		return nil, errz.TypeErrorf("type error: expected int (%s given)", obj.Type())
@@ -625,6 +650,9 @@ func (c *Int64Converter) To(obj Object) (interface{}, error) {
 	case *Int:
 		return int64(obj.value), nil
 	case *Float:
+		if err := checkIntegral(obj.value, "int64"); err != nil {
+			return nil, err
+		}
 		return int64(obj.value), nil
 	default:
 		return nil, errz.TypeErrorf("type error: expected int (%s given)", obj.Type())
@@ -648,6 +676,9 @@ func (c *UintConverter) To(obj Object) (interface{}, error) {
 		}
 		return uint(obj.value), nil
 	case *Float:
+		if err := checkIntegral(obj.value, "uint"); err != nil {
+			return nil, err
+		}
 		return uint(obj.value), nil
 	default:
 		return nil, errz.TypeErrorf("type error: expected int (%s given)", obj.Type())
@@ -675,6 +706,9 @@ func (c *Uint8Converter) To(obj Object) (interface{}, error) {
 		}
 		return uint8(obj.value), nil
 	case *Float:
+		if err := checkIntegral(obj.value, "uint8"); err != nil {
+			return nil, err
+		}
 		return uint8(obj.value), nil
 	default:
 		return nil, errz.TypeErrorf("type error: expected int (%s given)", obj.Type())
@@ -698,6 +732,9 @@ func (c *Uint16Converter) To(obj Object) (interface{}, error) {
 		}
 		return uint16(obj.value), nil
 	case *Float:
+		if err := checkIntegral(obj.value, "uint16"); err != nil {
+			return nil, err
+		}
 		return uint16(obj.value), nil
 	default:
 		return nil, errz.TypeErrorf("type error: expected int (%s given)", obj.Type())
@@ -721,6 +758,9 @@ func (c *Uint32Converter) To(obj Object) (interface{}, error) {
 		}
 		return uint32(obj.value), nil
 	case *Float:
+		if err := checkIntegral(obj.value, "uint32"); err != nil {
+			return nil, err
+		}
 		return uint32(obj.value), nil
 	default:
 		return nil, errz.TypeErrorf("type error: expected int (%s given)", obj.Type())
@@ -744,6 +784,9 @@ func (c *Uint64Converter) To(obj Object) (interface{}, error) {
 		}
 		return uint64(obj.value), nil
 	case *Float:
+		if err := checkIntegral(obj.value, "uint64"); err != nil {
+			return nil, err
+		}
 		return uint64(obj.value), nil
 	default:
 		return nil, errz.TypeErrorf("type error: expected int (%s given)", obj.Type())
